@@ -2037,6 +2037,8 @@ func runUniverse(o *hlib.Opts, r *hlib.Result, m *hlib.Model, rng *rand.Rand, nC
 		which := "p"
 		var clines []string
 		sw := [3]bool{true, true, true}
+		var pbProf *agd.Profile
+		pbLineAt := -1
 		// profMode is what the profile is configured with; mode is the
 		// requester's own constructor as documented: the profile's, or the
 		// server's for an anonymous requester and for a profile from which no
@@ -2103,6 +2105,25 @@ func runUniverse(o *hlib.Opts, r *hlib.Result, m *hlib.Model, rng *rand.Rand, nC
 			if rng.IntN(6) == 0 {
 				sw[1+rng.IntN(2)] = false
 			}
+			// Round 5: three of four profiles that the backend protocol can
+			// express arrive as a backend message and go through the
+			// unchanged conversion of backendpb.
+			if x, pbLine, ok := pbProfile(rng, c, profID, profMode, sw[1], "c0"); ok && rng.IntN(4) != 0 {
+				want := u.clientConfig(c, profID)
+				conv, collected, cerr := convertPB(ctx, x, want.Custom.UpdateTime)
+				rp := replay{Universe: ulines, Config: append(append([]string{}, clines...), pbLine), Op: "convert " + x.String()}
+				if cerr != nil || len(collected) > 0 {
+					r.Violate("backend-profile-rejected", fmt.Sprintf("a well-formed profile message was not converted: %v %v", cerr, collected), rp)
+				} else {
+					r.Count("profile-via-backendpb")
+					r.Count("profile-via-backendpb-mode-" + strings.Fields(pbLine)[17])
+					oraclePB(r, x, conv, want, profMode, sw[1], rp)
+					pbProf = conv
+					clines = append(clines[:len(clines)-2], pbLine)
+					pbLineAt = len(clines) - 1
+					flt = u.strg.ForConfig(ctx, conv.FilterConfig)
+				}
+			}
 		}
 		eff := c.effective(u)
 		if wired {
@@ -2127,6 +2148,11 @@ func runUniverse(o *hlib.Opts, r *hlib.Result, m *hlib.Model, rng *rand.Rand, nC
 			prof := &agd.Profile{FilterConfig: u.clientConfig(c, profID), Access: access.EmptyProfile{}, BlockingMode: profMode.build(), Ratelimiter: agd.GlobalRatelimiter{},
 				ID: agd.ProfileID(profID), DeviceIDs: []agd.DeviceID{dev.ID}, FilteredResponseTTL: profMode.dur(),
 				FilteringEnabled: sw[1], QueryLogEnabled: true}
+			if pbProf != nil {
+				// What a synchronisation would have stored.
+				prof = pbProf
+				prof.DeviceIDs = []agd.DeviceID{dev.ID}
+			}
 			u.profMu.Lock()
 			u.profs[remote] = &profEntry{prof, dev}
 			u.profMu.Unlock()
@@ -2216,6 +2242,27 @@ func runUniverse(o *hlib.Opts, r *hlib.Result, m *hlib.Model, rng *rand.Rand, nC
 			}
 		}
 
+		// (c2) round 5: the special domains of the initial middleware, as a
+		// variant of this profile.
+		if !isGroup && rng.IntN(2) == 0 {
+			u.profMu.Lock()
+			base := u.profs[remote]
+			u.profMu.Unlock()
+			sops, sreals := u.runSpecial(ctx, r, rng, sel, remote, base, ulines)
+			for i := range sops {
+				ops = append(ops, sops[i])
+				observed = append(observed, obs{kind: "special", real: sreals[i]})
+			}
+		}
+
+		if isGroup && wired {
+			sops, sreals := u.runSpecialGroup(ctx, r, rng, sel, remote, u.w.special[u.w.sgs[grpIdx].grp], ulines)
+			for i := range sops {
+				ops = append(ops, sops[i])
+				observed = append(observed, obs{kind: "special", real: sreals[i]})
+			}
+		}
+
 		// (d) faults: the upstream fails, or the context is dead by the time
 		// the request has been filtered.
 		for _, kind := range []string{"uperr", "cancel"} {
@@ -2232,6 +2279,14 @@ func runUniverse(o *hlib.Opts, r *hlib.Result, m *hlib.Model, rng *rand.Rand, nC
 
 		lines := append(append(append([]string{}, ulines...), clines...), ops...)
 		answers := m.Batch(lines)
+		if pbLineAt >= 0 {
+			// The model's own reading of the backend message accepts it and
+			// reads the same filtering switch.
+			if got, want := answers[len(ulines)+pbLineAt], "ok "+b01(sw[1]); got != want {
+				r.Disagree("backend-profile-model", fmt.Sprintf("%s: model %q, expected %q", clines[pbLineAt], got, want),
+					replay{Universe: ulines, Config: clines, Op: clines[pbLineAt], Model: got, Expected: want})
+			}
+		}
 		answers = answers[len(lines)-len(ops):]
 		r.ModelOps += len(lines)
 
@@ -2327,6 +2382,10 @@ func runUniverse(o *hlib.Opts, r *hlib.Result, m *hlib.Model, rng *rand.Rand, nC
 				}
 				if !ok {
 					r.Disagree("mw-debug-response", fmt.Sprintf("%s: real %q model %q", ops[i], ob.real, answers[i]), mk(ob.real, answers[i], ""))
+				}
+			case "special":
+				if mv, rv := normMsg(answers[i]), normMsg1(ob.real); !oneOf(mv, rv) {
+					r.Disagree("special-domain-response", fmt.Sprintf("%s: real %q model %q", ops[i], rv, answers[i]), mk(rv, answers[i], ""))
 				}
 			case "mwf":
 				u.oracleFault(r, ob.q, mode, filteringOn, ob.fault, ob.reqV, ob.real, ob.faultErr, mk)
@@ -2751,6 +2810,7 @@ func main() {
 		runUniverse(o, r, m, wrng, 5, nQ, true)
 	}
 	runBoundaries(r, o.Rand("boundaries"))
+	runBackendGrid(r, m)
 	runGrid(r, m, o.Rand("grid"), o.Thorough())
 	runSchedGrid(r, m, o.Thorough())
 	r.Finish()
